@@ -85,12 +85,13 @@ impl Scenario for C08S {
                 servers.push(json!({"use": false}));
                 continue;
             }
-            let m = if r.chance(1, 6) { r.range(8, 20) } else { r.range(1, 5) };
+            // (0 messages: the client connects and leaves - or dies - without saying anything)
+            let m = if r.chance(1, 6) { r.range(8, 20) } else if r.chance(1, 8) { 0 } else { r.range(1, 5) };
             let msgs: Vec<Value> = (0..m).map(|_| json!([if r.chance(1, 5) { size_classes(&mut r, first) as u64 } else { r.range(16, 200) }, r.chance(1, 4)])).collect();
             servers.push(json!({"use": true, "msgs": msgs, "client_delay_us": *r.pick(&[0u64, 0, 100, 2000]), "accept_delay_us": *r.pick(&[0u64, 0, 100, 2000, 20000]),
                 "client_proc": !inproc && r.chance(1, 2), "crash": !inproc && r.chance(1, 5), "drain": *r.pick(&["recv", "recv", "try", "timeout"])}));
         }
-        json!({"sim": sim, "servers": servers})
+        json!({"sim": sim, "servers": servers, "drop_at_fd_limit": !inproc && r.chance(1, 3)})
     }
     fn post(&self, body: &Value) -> Option<Violation> {
         let l = body["tmp_leftovers"].as_array().map(|a| a.len()).unwrap_or(0);
@@ -182,12 +183,18 @@ impl Scenario for C08S {
                 }
             });
         }
-        // servers dropped unused
+        let blocked = sim::settle();
+        // servers dropped unused - in a third of the cases while the program sits exactly at its
+        // descriptor limit (closing the listener is what frees the slot the clean-up needs)
+        let at_limit = p["drop_at_fd_limit"].as_bool().unwrap_or(false) && !cfg!(feature = "inproc");
+        let old_limit = if at_limit { Some(sim::fd_limit_with_free_slots(0)) } else { None };
         for (srv, server, name) in unused {
             drop(server);
             hist::log("server.dropped", srv as i64, 0, 0, if !cfg!(feature = "inproc") && std::path::Path::new(&name).exists() { "PATH-EXISTS" } else { "" });
         }
-        let blocked = sim::settle();
+        if let Some(o) = old_limit {
+            sim::restore_fd_limit(o);
+        }
         let evs = hist::events();
         // distinct names
         let mut sorted = names.clone();
@@ -202,8 +209,15 @@ impl Scenario for C08S {
             }
             let ok_sends: Vec<i64> = evs.iter().filter(|e| e.op == "send.ok" && e.a == srv).map(|e| e.b).collect();
             let accept = evs.iter().find(|e| e.op == "accept.ret" && e.a == srv);
+            let silent = s["msgs"].as_array().map(|a| a.is_empty()).unwrap_or(true);
             if let Some(e) = evs.iter().find(|e| (e.op == "connect.err" || e.op == "accept.err") && e.a == srv) {
-                out.viol(&format!("{}:server", e.op.replace('.', "-")), format!("server {}: {}", srv, e.s));
+                // a client that connected and left without a message: accept can only report an error
+                if !(silent && e.op == "accept.err") {
+                    out.viol(&format!("{}:server", e.op.replace('.', "-")), format!("server {}: {}", srv, e.s));
+                }
+                continue;
+            }
+            if silent {
                 continue;
             }
             for e in evs.iter().filter(|e| e.op == "send.err" && e.a == srv) {
